@@ -323,19 +323,35 @@ def rule_dims(chk, prog):
   f = prog.func(f'{XU}._infer_dims_shape_and_coords')
   v, ctx, env = ev.run(f)
   site, loc = f'{XU}._infer_dims_shape_and_coords', (f.file, f.lineno)
-  t = env.get('basic_shape_to_dims')
-  chk.require(t is not None, f'{site}: table `basic_shape_to_dims` not found')
-  pairs = []
-  def collect(x):
-    while x.k == 'store':
-      pairs.append((x.a[1], x.a[2], x.loc))
-      x = x.a[0]
-    return x
-  if t.k == 'loop':
-    collect(t.a[2])
-    collect(t.a[1])
-  else:
-    collect(t)
+  # the shape → dims table is the local built by the longest chain of stores (found by role, not by its name)
+  def pairs_of(t):
+    out = []
+    def collect(x):
+      while x.k == 'store':
+        out.append((x.a[1], x.a[2], x.loc))
+        x = x.a[0]
+      return x
+    if t.k == 'loop':
+      collect(t.a[2])
+      collect(t.a[1])
+    else:
+      collect(t)
+    return out
+  tables = sorted(((len(pairs_of(x)), n) for n, x in env.items() if isinstance(x, Term) and x.k in ('loop', 'store')), reverse=True)
+  chk.require(bool(tables) and tables[0][0] >= 8, f'{site}: the shape → dims table (≥ 8 stores) was not found')
+  pairs = pairs_of(env[tables[0][1]])
+  # an additional coordinate as long as the level axis cannot be told apart by shape: it must be refused
+  lv = lambda t: sym.contains(t, lambda z: z.k == 'attr' and z.a[1] in ('layers', 'boundaries', 'centers') and sym.contains(z, lambda w: w.k == 'attr' and w.a[1] == 'vertical'))
+  collide = []
+  for path, exc, l_ in ctx.raises:
+    for cnd in path:
+      for z in sym.walk(cnd):
+        if z.k == 'cmp' and z.a[0] == ('==',) and any(o.k == 'attr' and o.a[1] == 'shape' for o in z.a[1]) and any(o.k == 'tuple' and len(o.a) == 1 and lv(o) for o in z.a[1]):
+          collide.append(z)
+        if z.k == 'cmp' and z.a[0] == ('==',) and any(o.k == 'call' and o.a[0] == Term('ext', 'len') for o in z.a[1]) and any(lv(o) and o.k != 'call' for o in z.a[1]):
+          collide.append(z)
+  chk.check(bool(collide), rule, f'{site}: an additional coordinate whose length equals the number of levels is refused (axes are matched by shape)',
+            sym.show(collide[0])[:160] if collide else 'no raise guarded by shape == (layers,)', loc, 'raise if value.shape == (coords.vertical.layers,)', 'missing')
   chk.require(len(pairs) >= 8, f'{site}: only {len(pairs)} shape → dims entries found')
   for k, d, l in pairs:
     kr, dr = shape_roles(k), dims_roles(ev, d)
